@@ -79,6 +79,14 @@ def showRes (r : Except String (List Rat)) : String :=
   | .ok l => showRatList l
   | .error e => e
 
+def getReduced (j : Json) (k : String) : Except String (Reduced Float) :=
+  match j.getObjVal? k with
+  | .ok v => do
+      let rows ← (← getArr v "rA").mapM fun r => do (← asArr r).mapM asFloatBits
+      let rb ← getFloatBitsList v "rb"
+      pure { rA := rows, rb := rb }
+  | _ => .error s!"!bad-arg:{k}"
+
 def h : Handler := fun op j =>
   match op with
   | "stoichs_constants" => do
@@ -152,6 +160,29 @@ def h : Handler := fun op j =>
             showNatList ck2 ++ "|" ++ showRatList a ++ "|" ++ showRatList b,
             showRes (upperConcBounds s init)]))
       | _ => pure (";;".intercalate base)
+  | "cfg_f" => do
+      -- every formulation in every (rref_equil, rref_preserv) configuration, Float; the reducer outputs are inputs
+      let s ← getSys j
+      let form ← getStr j "form"
+      let prec ← getBoolList j "precipitates"
+      let small ← getFloatBits j "small"
+      let re ← getBool j "rref_equil"
+      let rp ← getBool j "rref_preserv"
+      let redE ← getReduced j "redE"
+      let redP ← getReduced j "redP"
+      let y ← getFloatBitsList j "y"
+      let p ← getFloatBitsList j "params"
+      let r ← match form with
+        | "lin" => pure (numSysLinCfgF s prec small re rp redE redP y p)
+        | "square" => pure (numSysSquareCfgF s prec small re rp redE redP y p)
+        | "linrel" => pure (numSysLinRelCfgF s prec small re rp redE redP y p)
+        | "log" => pure (numSysLogCfgF s prec small re rp redE redP y p)
+        | _ => .error "!bad-arg:form"
+      match r with
+      | .ok l => pure (showFloatBitsList l)
+      | .error e => pure e
+  | "solver_params" => do
+      pure (showRatList (solverParams (← getRatList j "init") (← getRatList j "rxn_params")))
   | _ => .error "!bad-op"
 
 def main : IO Unit := run h
